@@ -68,6 +68,31 @@ CHECKS = {
         note='Trusted: z3, CrossHair; numpy tofile/fromfile transfer exactly nbytes (stub contract); a crash leaves a prefix of the interrupted write. Outside: MPI-IO, toVTR, symbolic Rectilinear grids.',
         design='4/C16', technique='symbolic execution of real I/O code on a symbolic file + SMT (QF_NIA); CrossHair contracts for the block decomposition',
     ),
+    'C01': dict(
+        category='other',
+        text='Bounded symbolic execution of whole runs: the real controller, sweepers, BaseTransfer and CheckConvergence run on a symbolic initial value in [-1,1]^n; the residual test forks, every '
+             'feasible path (which step stops at which iteration) is executed, coverage certified. For every step that stopped by tolerance one SMT validity query (QF_LRA): the returned end value is within '
+             'c*restol of the solution of the fine collocation system, which is defined inside the query and solved by the solver; each step starts from exactly the previous end value. '
+             'Bounds: quick M<=3, n<=3, 1-3 steps, 1-3 levels, maxiter<=5, 24 configurations; thorough >= 200 sampled configurations.',
+        note='Trusted: z3; exact-solve linear stub problems; injection space transfer; reals for floats; c computed in floats with 1 % margin. Paths that stop by the budget carry no claim. Configurations are enumerated/sampled.',
+        design='4/C01', technique='symbolic execution of whole real runs with SMT feasibility pruning; QF_LRA validity against an in-query collocation solve',
+    ),
+    'C04': dict(
+        category='other',
+        text='The real predictor, K sweeps and end point are executed with the problem coefficient z symbolic: the step function R_K(z) of the real code is a z3 term. (i) SMT validity (QF_NRA): R_K(z) equals the '
+             'algebraic recursion / Butcher-tableau stability function for all z (SDC implicit/explicit/IMEX, all 26 RK classes); the collocation solution is a fixed point of the real sweep. '
+             '(ii) exact Taylor coefficients of that term (power series over rationals): c_j = 1/j! for j <= min(K,p), embedded pairs differ at order >= update order, IMEX along 7 rays. (iii) solver cross-check in the thorough tier.',
+        note='Trusted: z3; qmat for the order p of the rules / RK schemes; tolerance 1e-12 on coefficients (float tables). (ii) is exact symbolic computation on the solver-validated term, not a solver verdict. Outside: M>5, K>7, nonlinear order conditions.',
+        design='4/C04', technique='symbolic execution of the real sweepers with symbolic z + SMT (QF_NRA) identity; exact power-series extraction from the resulting term',
+    ),
+    'C20': dict(
+        category='other',
+        text='(a) CrossHair contracts over the real Step.__dict_to_list (symbolic scalar-or-list values, lists up to 4/6); (c) the real controller constructor executed with symbolic integer control orders of 2..4 '
+             'convergence controllers: every ordering path proved ascending (SMT), instantiated once, user parameters override defaults, coverage certified; (b,d) rejection / frozen-attribute clauses are a finite table of '
+             'single-fault perturbations executed concretely as side conditions (no solver).',
+        note='Trusted: CrossHair, z3. Description keys and attribute names are fixed lists. Outside: the full grammar of valid descriptions.',
+        design='4/C20', technique='CrossHair contracts + symbolic execution of the controller constructor (z3); concrete side conditions for the finite rejection table',
+    ),
 }
 
 NOT_APPLICABLE = {
